@@ -331,4 +331,99 @@ def popN (le : Cmp ε α) : Nat → List α → List α → Nat → Res ε α (L
 
 end Heap
 
+/-! ### `XSequence::quickselect` (sequence.rs:402-479) behind `nth_smallest` / `nth_largest` / `median`
+
+`cmp` answers the SIGN of the user's comparison (`.sign()`, an `i8` in {-1, 0, 1}).  The array is a
+private `Vec` of the elements; `items.swap` / indexing out of bounds is a Rust panic.  On a comparator
+failure the array (a permutation of the elements, only whole-element swaps are made) is dropped. -/
+namespace Select
+
+/-- `items.swap(i, j)` -/
+def swap (l : List α) (i j : Nat) : Option (List α) :=
+  match l[i]?, l[j]? with
+  | some a, some b => some ((l.set i b).set j a)
+  | _, _ => none
+
+/-- `for j in left..=right { if cmp(items[j], pivot) == -1 { items.swap(j, ret); ret += 1 } }`
+(`k` = iterations left) -/
+def partLoop (cmp : Cmp3 ε α) (pivot : α) : Nat → List α → Nat → Nat → Nat → Res ε α (List α × Nat)
+  | 0, items, _, ret, n => .ok (items, ret) n
+  | k + 1, items, j, ret, n =>
+    match items[j]? with
+    | none => .panic
+    | some x =>
+      match cmp n x pivot with
+      | .error e => .fail e items (n + 1)
+      | .ok c =>
+        if c == -1 then
+          match swap items j ret with
+          | none => .panic
+          | some items' => partLoop cmp pivot k items' (j + 1) (ret + 1) (n + 1)
+        else partLoop cmp pivot k items (j + 1) ret (n + 1)
+
+/-- the pivot choice "from three candidates" (sequence.rs:440-456); payload = `piv_idx` -/
+def choosePivot (cmp : Cmp3 ε α) (items : List α) (left right : Nat) (n : Nat) : Res ε α Nat :=
+  let mid := (left + right) / 2
+  match items[left]?, items[right]?, items[mid]? with
+  | some a, some b, some c =>
+    match cmp n a b with
+    | .error e => .fail e items (n + 1)
+    | .ok ab =>
+      match cmp (n + 1) a c with
+      | .error e => .fail e items (n + 2)
+      | .ok ac =>
+        if ab * ac == -1 then .ok left (n + 2)
+        else
+          match cmp (n + 2) b c with
+          | .error e => .fail e items (n + 3)
+          | .ok bc => if bc * (-ab) == -1 then .ok right (n + 3) else .ok mid (n + 3)
+  | _, _, _ => .panic
+
+/-- `partition(items, left, right, cmp)`; payload = (items, returned index) -/
+def partition (cmp : Cmp3 ε α) (items : List α) (left right : Nat) (n : Nat) : Res ε α (List α × Nat) :=
+  if left = right then .ok (items, left) n
+  else
+    (choosePivot cmp items left right n).bind fun piv n1 =>
+      match swap items piv right with
+      | none => .panic
+      | some items1 =>
+        match items1[right]? with
+        | none => .panic
+        | some pivot =>
+          (partLoop cmp pivot (right + 1 - left) items1 left left n1).bind fun st n2 =>
+            match swap st.1 st.2 right with
+            | none => .panic
+            | some items2 => .ok (items2, st.2) n2
+
+/-- the `loop` of `quickselect`; payload = (selected element, final array) -/
+def selectLoop (cmp : Cmp3 ε α) (target : Nat) : Nat → List α → Nat → Nat → Nat → Res ε α (α × List α)
+  | 0, _, _, _, _ => .panic     -- out of fuel (fuel = len + 1; the range shrinks every round)
+  | fuel + 1, arr, left, right, n =>
+    (partition cmp arr left right n).bind fun st n1 =>
+      let (arr', p) := st
+      if p = target then
+        match arr'[p]? with
+        | some x => .ok (x, arr') n1
+        | none => .panic
+      else if p > target then
+        if p = 0 then .panic else selectLoop cmp target fuel arr' left (p - 1) n1
+      else selectLoop cmp target fuel arr' (p + 1) right n1
+
+/-- `quickselect(n, cmp)`: `arr.len() - 1` panics on an empty array (the callers test `i1 >= len0`
+first, so they never get there) -/
+def quickselect (cmp : Cmp3 ε α) (arr : List α) (target : Nat) : Res ε α (α × List α) :=
+  if arr.length = 0 then .panic
+  else selectLoop cmp target (arr.length + 1) arr 0 (arr.length - 1) 0
+
+/-- `nth_smallest(i, cmp)` / `nth_largest(i, cmp)` / `median(cmp)`: `none` = the error value
+"index out of bounds" -/
+def nthSmallest (cmp : Cmp3 ε α) (arr : List α) (i : Nat) : Option (Res ε α (α × List α)) :=
+  if i ≥ arr.length then none else some (quickselect cmp arr i)
+def nthLargest (cmp : Cmp3 ε α) (arr : List α) (i : Nat) : Option (Res ε α (α × List α)) :=
+  if i ≥ arr.length then none else some (quickselect cmp arr (arr.length - i - 1))
+def median (cmp : Cmp3 ε α) (arr : List α) : Option (Res ε α (α × List α)) :=
+  nthSmallest cmp arr (arr.length / 2)
+
+end Select
+
 end XrayModel.Sort
